@@ -18,6 +18,7 @@ Oracle (implementation alone, independent of the model):
 import inspect
 from props.mergefam import *
 from evalrun import WorldImpl, build_root
+import impname      # family `impname`: target resolution utils.import_name against AY.Model.ImportName (driver op importName)
 
 VARSIG = GE.VARSIG
 WORLD = dict(GE.WORLD)
@@ -555,7 +556,7 @@ class C13(MergeFamProp):
             D('merge', M([('r', call('rec.f', [('a', S(1))], kw={'prio': -1}))]), M([('r', call('rec.g', [('b', S(2))], kw={'prio': -1}))])),
             # ... but stays when the target is the same
             D('merge', M([('r', call('rec.f', [('a', S(1, kw={'prio': 1})), ('b', S(2))]))]), M([('r', call('rec.f', [('a', S(5)), ('c', S(3))]))])),
-        ]
+        ] + impname.corpus()
 
     def gen_cases(self, rng, n, tier):
         out = []
@@ -564,9 +565,38 @@ class C13(MergeFamProp):
             st = self.STYLES[rng.randrange(len(self.STYLES))] if rng.random() < 0.4 else self.STYLES[0]
             c['style'] = list(st)
             out.append(c)
-        return out
+        r2 = random.Random(rng.random())      # drawn after the others: those stay as they were
+        return out + [impname.gen_case(r2) for _ in range(max(1, n // 5))]
+
+    # ---------------------------------------------------------------------------------- family `impname`
+    def _impname_io(self, case):
+        key = json.dumps(case, sort_keys=True, default=str)
+        cache = self.__dict__.setdefault('_impname_cache', {})
+        if key not in cache:
+            if len(cache) > 5000:
+                cache.clear()
+            cache[key] = impname.run_case(case)
+        return cache[key]
+
+    def model_requests(self, case):
+        if case.get('kind') == 'impname':
+            return impname.requests(case, self._impname_io(case))
+        return super().model_requests(case)
+
+    def model_obs(self, case, answers):
+        if case.get('kind') == 'impname':
+            return {'impname': answers}
+        return super().model_obs(case, answers)
+
+    def render(self, case):
+        if case.get('kind') == 'impname':
+            return impname.render(case)
+        return super().render(case)
 
     def impl(self, case):
+        if case.get('kind') == 'impname':
+            self.__dict__.setdefault('_impname_cache', {}).pop(json.dumps(case, sort_keys=True, default=str), None)
+            return self._impname_io(case)
         io = super().impl(case)
         if case.get('kind') == 'merge':
             io['stages'] = stage_trees(case['docs'], case.get('style', ['flow', 0, 0]))
@@ -660,6 +690,8 @@ class C13(MergeFamProp):
         return None
 
     def oracle(self, case, io, ans):
+        if case.get('kind') == 'impname':
+            return impname.oracle(case, io)
         d = self.oracle_table(case, io)
         if d:
             return d
@@ -690,11 +722,15 @@ class C13(MergeFamProp):
         return any(C13._negative_alias(c) for _, c in d.get('c', []))
 
     def compare(self, case, io, mo):
+        if case.get('kind') == 'impname':
+            return impname.compare(case, io, mo['impname'])
         if 'ok' in io['tree'] and (self._float_key_bind(io['tree']['ok']) or self._negative_alias(io['tree']['ok'])):
             return 'SKIP'      # MODEL_DIVERGENCE (both outside the property text)
         return super().compare(case, {'tree': io['tree'], 'cfg': io['cfg']}, mo)
 
     def features(self, case, io):
+        if case.get('kind') == 'impname':
+            return impname.features(case, io)
         f = ['kind:' + case.get('kind', '?')]
         if case.get('kind') == 'bind':
             f.append('keys:' + case.get('mode', '?'))
@@ -714,6 +750,9 @@ class C13(MergeFamProp):
         return f + ['result:' + str(r)]
 
     def shrink(self, case):
+        if case.get('kind') == 'impname':
+            yield from impname.shrink(case)
+            return
         for d in shrink_docs(case['docs']):
             yield dict(case, docs=d)
 
